@@ -110,6 +110,37 @@ fn sample_sentence(rng: &mut Rng, e: &mut Earley, max: usize) -> Option<Vec<u8>>
     }
 }
 
+/// Long walk through the reference language that prefers to repeat the previous byte (long runs reach the
+/// ends of wide bounded repetitions); at EVERY prefix the full single-byte mask is compared with the reference.
+fn long_walk(rng: &mut Rng, m: &Matcher, bnf: &Bnf, max: usize) -> Result<usize, (String, serde_json::Value)> {
+    let mut me = m.clone();
+    let mut er = Earley::new(bnf);
+    let mut prefix: Vec<u8> = vec![];
+    let mut checked = 0;
+    for _ in 0..max {
+        compare_node(&mut me, &er, &prefix)?;
+        checked += 1;
+        if me.is_stopped() {
+            break;
+        }
+        let nb = er.next_bytes();
+        let opts: Vec<u8> = (0..=254u8).filter(|&b| nb[b as usize]).collect();
+        if opts.is_empty() || (er.accepting() && rng.chance(1, 10)) {
+            break;
+        }
+        let b = match prefix.last() {
+            Some(&l) if nb[l as usize] && rng.chance(7, 8) => l,
+            _ => *rng.pick(&opts),
+        };
+        if me.consume_token(b as u32).is_err() {
+            return Err(("derivable_byte_rejected".into(), json!({"prefix": bytes_dbg(&prefix), "byte": b})));
+        }
+        er.push(b);
+        prefix.push(b);
+    }
+    Ok(checked)
+}
+
 fn run_case(ctx: &mut Ctx, idx: u64, v1: &Vocab) {
     let mut rng = ctx.case_rng(idx);
     let hand = gen_cfg::handwritten();
@@ -190,6 +221,15 @@ fn run_case(ctx: &mut Ctx, idx: u64, v1: &Vocab) {
     }
     if dfs.nodes >= 8 && dfs.accepted >= 1 {
         ctx.rep.nontrivial(g.hash());
+    }
+    for _ in 0..ctx.pick(2, 5) {
+        match long_walk(&mut rng, &m, &bnf, 70) {
+            Ok(n) => {
+                ctx.rep.add("long_walk_states", n as u64);
+                ctx.rep.add("mask_bytes_compared", n as u64 * 255);
+            }
+            Err((k, det)) => viol!(&k, json!({"phase": "long_walk", "detail": det})),
+        }
     }
     // long sentences byte by byte + V-loop on a grammar-specific multi-byte vocabulary
     let mut e = Earley::new(&bnf);
